@@ -15,7 +15,7 @@ CHECKS = {
          "2 streams; alphabet sizes/increments; MAX_FRAME_SIZE only raised; no state deduplication (every history replayed).",
          "explicit-state search over event histories on the implementation (gosim) + schedule enumeration", "gosim", "DESIGN.md §7 C09"),
  "C10": ("model_checking",
-         "The real h2.Config.Proxy runs between two frame-level endpoints (which close their side on EOF/error like real peers) over simnet under the gosim scheduler: 7 terminating events (client closes, server closes, write failure toward either side, malformed frame from either side, proxy shutdown) x 5 session states (idle, mid-stream, DATA blocked on a zero window with trailers queued, output channel full because the server stopped reading, and its mirror image with a stalled client) + bad preface + dial error; every schedule with <=2 (quick) / <=3 (thorough) deviations; oracle at the first quiescent point with zero virtual time elapsed: Proxy returned, its upstream connection is closed, no thread spawned by the session is alive.",
+         "The real h2.Config.Proxy runs between two frame-level endpoints (which close their side on EOF/error like real peers) over simnet under the gosim scheduler: 7 terminating events (client closes, server closes, write failure toward either side, malformed frame from either side, proxy shutdown) x 5 session states (idle, mid-stream, DATA blocked on a zero window with trailers queued, output channel full because the server stopped reading, and its mirror image with a stalled client) + bad preface + dial error; every schedule with <=2 deviations (thorough: <=3 in the idle and set-up states, <=2 in the flooded states where quick has <=1); oracle at the first quiescent point with zero virtual time elapsed: Proxy returned, its upstream connection is closed, no thread spawned by the session is alive.",
          "TLS replaced by the dial seam (no close_notify); a peer that stopped reading never closes.",
          "stateless schedule/fault enumeration of the implementation (gosim)", "gosim", "DESIGN.md §7 C10"),
  "C11": ("model_checking",
